@@ -226,6 +226,12 @@ func (x *Exec) run() {
 	for _, r := range x.fc.Requires {
 		st.assume(env.evalBool(r.E))
 	}
+	for _, ax := range x.eng.axioms {
+		if ax.Pkg == x.fi.Pkg.Types.Name() {
+			st.assume(env.evalBool(ax.Cl.E))
+			x.noteTrusted("axiom (package " + ax.Pkg + ", trusted): " + ax.Cl.Src)
+		}
+	}
 	x.entry.pc = append([]*Term(nil), st.pc...)
 	if x.fc.HasAssigns {
 		fenv := x.entryEnv(x.entry, x.entry)
@@ -613,6 +619,18 @@ func (x *Exec) readGlobal(st *State, o *types.Var) Val {
 		return Val{T: t, Ty: ty}
 	}
 	qual := o.Pkg().Name() + "." + o.Name()
+	if !x.eng.assigned[o] && !x.eng.symbolic[qual] && ty.K == TOpaque {
+		// never-assigned package variable of interface type (error values):
+		// a distinct non-nil constant per variable
+		id, ok := x.eng.strIDs["var:"+qual]
+		if !ok {
+			id = int64(len(x.eng.strIDs) + 700000)
+			x.eng.strIDs["var:"+qual] = id
+		}
+		st.globals[o] = IntLit(id)
+		x.global0[o] = st.globals[o]
+		return Val{T: st.globals[o], Ty: ty}
+	}
 	if !x.eng.assigned[o] && !x.eng.symbolic[qual] {
 		if init, ok := x.eng.varInit[o]; ok {
 			// constant-fold the initializer in an empty state
